@@ -467,6 +467,85 @@ func TestC14(t *testing.T) {
 		c.Class("racing/term=%s", term(o))
 		run(c, term(o), func() { runC14(c, ctx, o, false, lc, -1) })
 	})
+	// two connections on one mux: while a handler of connection A is busy, connection B gets a
+	// CloseNotify request from another goroutine (its reader is blocked), one more message and
+	// then the peer's EOF: B's channel closes and B's reader exits without waiting for A
+	rec.Suite("other-connection-busy", rec.N(8, 400), func(c *ev.Case) {
+		viaMux := c.I%2 == 0
+		c.Class("other-connection-busy/mux=%v", viaMux)
+		run(c, "E", func() {
+			sig := func(op string) ev.Sig {
+				return ev.Sig{"op": op, "termination": "E", "variant": "other-connection-busy"}
+			}
+			release := make(chan struct{})
+			var hmu sync.Mutex
+			handled := map[string][]uint32{}
+			hf := diam.HandlerFunc(func(dc diam.Conn, m *diam.Message) {
+				hmu.Lock()
+				handled[dc.RemoteAddr().String()] = append(handled[dc.RemoteAddr().String()], m.Header.HopByHopID)
+				hmu.Unlock()
+				if m.Header.HopByHopID == 0xA1 {
+					<-release
+				}
+			})
+			var h diam.Handler = hf
+			if viaMux {
+				mux := diam.NewServeMux()
+				mux.Handle("ALL", hf)
+				h = mux
+			}
+			mcA, mcB := memnet.NewConn(), memnet.NewConn()
+			mcA.Remote = memnet.Addr{Net: "tcp", Str: "10.0.0.1:1"}
+			mcB.Remote = memnet.Addr{Net: "tcp", Str: "10.0.0.2:1"}
+			connA, errA := diam.NewConn(mcA, "a", h, ctx.Parser)
+			connB, errB := diam.NewConn(mcB, "b", h, ctx.Parser)
+			if errA != nil || errB != nil {
+				c.Fail(sig("setup"), nil, nil, "NewConn: %v %v", errA, errB)
+				return
+			}
+			defer func() {
+				close(release)
+				mcA.FeedEOF()
+				connA.Close()
+				connB.Close()
+				synctest.Wait()
+			}()
+			mcB.Feed(seqMsg(1, 12))
+			synctest.Wait()
+			mcA.Feed(seqMsg(0xA1, 12)) // A's handler is now busy
+			synctest.Wait()
+			ch := connB.(diam.CloseNotifier).CloseNotify() // B's reader is blocked in Read
+			synctest.Wait()
+			select {
+			case <-ch:
+				c.Fail(sig("closed-before-termination"), nil, nil, "B's CloseNotify channel is closed while B is still connected")
+				return
+			default:
+			}
+			mcB.Feed(seqMsg(2, 12))
+			mcB.FeedEOF()
+			synctest.Wait()
+			hmu.Lock()
+			gotB := append([]uint32(nil), handled["10.0.0.2:1"]...)
+			hmu.Unlock()
+			if len(gotB) != 2 || gotB[0] != 1 || gotB[1] != 2 {
+				c.Fail(sig("message-log"), nil, nil, "connection B's handler saw %v, messages 1 and 2 were delivered (a handler of connection A is busy)", gotB)
+				return
+			}
+			select {
+			case <-ch:
+			default:
+				c.Fail(sig("not-closed-after-termination"), nil, nil, "connection B's peer closed, but its CloseNotify channel is not closed at quiescence while a handler of connection A is still running")
+				return
+			}
+			if mcB.CloseCount() == 0 {
+				c.Fail(sig("transport-not-closed"), nil, nil, "connection B's transport was not closed after EOF (a handler of connection A is busy)")
+				return
+			}
+			c.Event("other_connection_busy_runs", 1)
+			c.Event("channels_checked", 1)
+		})
+	})
 	// a TLS client connection whose handshake fails (DialTLS hands out the Conn before the
 	// handshake has run): CloseNotify requested before, during or after the failure
 	rec.Suite("tls-client-handshake-failure", 9*rec.N(2, 40), func(c *ev.Case) {
